@@ -300,7 +300,16 @@ def check_species(ctx):
         raise AnalysisError('import_sbml_species: loop not found')
     lp = loops[0]
     v = src(lp.target)
-    body = [s_ for s_ in lp.body if not (isinstance(s_, ast.If) and any(isinstance(x, ast.Continue) for x in ast.walk(s_)))]
+    skips = [s_ for s_ in lp.body if isinstance(s_, ast.If) and any(isinstance(x, ast.Continue) for x in ast.walk(s_))]
+    body = [s_ for s_ in lp.body if s_ not in skips]
+    for sk in skips:
+        lits = sorted(n.value for n in ast.walk(sk.test) if isinstance(n, ast.Constant) and isinstance(n.value, str))
+        names = {n.id for n in ast.walk(sk.test) if isinstance(n, ast.Name)}
+        if not (lits == ['t', 'volume'] and len(names) == 1 and not sk.orelse and isinstance(sk.test, ast.BoolOp) and isinstance(sk.test.op, ast.Or)):
+            problems.append('species are skipped under the condition `%s` (only the keywords volume / t may be skipped)' % src(sk.test))
+    for n in ast.walk(lp):
+        if isinstance(n, (ast.Continue, ast.Break)) and not any(n in ast.walk(sk) for sk in skips):
+            problems.append('the species loop is cut short at line %d' % n.lineno)
     A, C = sp.Symbol('A', real=True), sp.Symbol('C', real=True)
     FA, FC = sp.Symbol('FA', real=True), sp.Symbol('FC', real=True)
 
@@ -337,10 +346,50 @@ def check_species(ctx):
                         problems.append('amount %s, concentration %s: value %s, expected %s' % (av if fa else 'unset', 7 if fc else 'unset', got, exp))
     ctx.ob('R13.5-initial-values', 'import_sbml_species', not problems, ctx.loc('sbmlutil', f),
            'value = amount if finite; the concentration is used only if finite and the value is still 0', '; '.join(sorted(set(problems))[:3]))
+    # C13 only needs the value to be read at all: a parameter that is the target of an (always repeated, un-annotated) assignment rule is
+    # overwritten by that rule, so skipping its value attribute would not change an imported plain document.  The strict per-path form
+    # below is what the round trip (C12) needs, where rules can be scheduled or self-referential.
     f = func(ctx, 'import_sbml_parameters')
     txt = [util.stmt_key(s).replace(' ', '') for s in ast.walk(f) if isinstance(s, ast.stmt)]
     ok = 'allparams[pid]=p.getValue()' in txt and 'pid=p.getId()' in txt
     ctx.ob('R13.5-initial-values', 'import_sbml_parameters', ok, ctx.loc('sbmlutil', f), 'global parameters keep their finite values', '')
+
+
+def check_parameter_values(ctx, rule='R13.5-initial-values'):
+    """every global parameter is entered under its id with its value attribute (0.0 only if that is not finite) - on every path"""
+    from .. import paths
+    f = func(ctx, 'import_sbml_parameters')
+    loops = [s for s in f.body if isinstance(s, ast.For) and 'getListOfParameters' in src(s.iter)]
+    if len(loops) != 1:
+        raise AnalysisError('import_sbml_parameters: loop over the parameters not found')
+    lp = loops[0]
+    v = src(lp.target)
+    problems = []
+    ps = paths.Enumerator().run(lp.body, paths.State())
+    ctx.paths += len(ps)
+    k_ = lambda t: t.replace(' ', '')
+    for p in ps:
+        tests = {k_(util.canon_test(e.node)): e.info for e in p.events if e.kind == 'test'}
+        stores = [e.node for e in p.stmts() if isinstance(e.node, ast.Assign) and isinstance(e.node.targets[0], ast.Subscript)
+                  and src(e.node.targets[0].value) == 'allparams']
+        fin = [t for t in tests if 'isfinite(%s.getValue())' % v in t]
+        last = k_(src(stores[-1].value)) if stores else None
+        idv = None
+        if stores and isinstance(stores[-1].targets[0].slice, ast.Name):
+            d = [e.node for e in p.stmts() if isinstance(e.node, ast.Assign) and src(e.node.targets[0]) == stores[-1].targets[0].slice.id]
+            idv = k_(src(d[-1].value)) if d else None
+        desc = paths.describe(p, 4)
+        if p.exit not in ('fall', 'continue') or not stores or idv != '%s.getId()' % v:
+            problems.append('a path does not enter the parameter under its id [%s]' % desc)
+        elif len(fin) != 1 or len(tests) != 1:
+            problems.append('a path decides the value by other conditions than the finiteness of the value attribute [%s]' % desc)
+        elif tests[fin[0]] != (not fin[0].startswith('not')) and last not in ('0.0', '0'):
+            problems.append('a non-finite value is stored as %s [%s]' % (last, desc))
+        elif tests[fin[0]] == (not fin[0].startswith('not')) and last != '%s.getValue()' % v:
+            problems.append('a finite value attribute is not what is stored (%s) [%s]' % (last, desc))
+    ctx.ob(rule, 'import_sbml_parameters', not problems, ctx.loc('sbmlutil', f),
+           'every global parameter gets its value attribute (0.0 only when that is not finite), whatever else the document says about it',
+           '; '.join(sorted(set(problems))[:3]))
 
 
 def check_assembly(ctx):
